@@ -71,10 +71,15 @@ def cases(rng):
             }
             for cn, src in ctxs.items():
                 out.append((src, exp_lint, '%d of type %s as %s' % (v, t, cn)))
-    for extra in (2 ** 128, 2 ** 128 + 5, 10 ** 40):
-        out.append(('fn f()\n{\n\tvar x: u128 = %d;\n}\n' % extra, 'E140', '%d is beyond 128 bits' % extra))
     rng.shuffle(out)
-    return out
+    # just beyond 128 bits (every last digit: a checked multiplication followed by an unchecked addition would wrap here), and far beyond;
+    # these come first so that a quick run always includes them
+    beyond = []
+    for extra in [2 ** 128 + d for d in range(0, 10)] + [2 ** 128 + 10, 2 ** 128 + 55, (2 ** 128 // 10 + 1) * 10, 10 ** 39, 10 ** 40]:
+        for spelling in ('%d' % extra, ('%d' % extra)[:20] + '_' + ('%d' % extra)[20:]):
+            beyond.append(('fn f()\n{\n\tvar x: u128 = %s;\n}\n' % spelling, 'E140', '%s is beyond 128 bits' % spelling))
+            beyond.append(('fn f()\n{\n\tvar x = %su128;\n}\n' % spelling, 'E140', '%su128 is beyond 128 bits' % spelling))
+    return beyond + out
 
 
 def verdict_ok(exp, r):
